@@ -75,6 +75,7 @@ func main() {
 			os.Exit(2)
 		}
 	}()
+	r.StartBlockDetector()
 	drv(r)
 	os.Exit(r.Finish())
 }
